@@ -31,7 +31,9 @@ def generate(ctx):
              # keyword arguments for the connections, routed by name (which connections get some: by bit)
              "ckw": rng.choice([0, 0, 1, 2, 3, 5, 6, 7]),
              # connections carry updaters with pending (accumulated, partly inspected, partly applied) updates when cleared
-             "updaters": rng.random() < 0.5}
+             "updaters": rng.random() < 0.5,
+             # recurrent layers: additional positional inputs for the lateral / feedback connections (DeltaPlus currents)
+             "rargs": rng.random() < 0.6}
         if kind == "serial":
             d["conn"] = rng.choice(fac.CONNECTIONS)
             d["transform"] = rng.choice([None, "double", "offset_kw"])
@@ -196,6 +198,22 @@ def _inputs(desc, parts, g):
     return (torch.rand((B,) + tuple(first.inshape), generator=g) < desc["p"],)
 
 
+_ARGS_USED = [0]
+
+
+def _extra_args(desc, parts_or_layer_conns, x):
+    """additional positional inputs for the lateral / feedback connections of a recurrent layer (injected currents for a
+    DeltaPlus synapse), a deterministic function of this step's input so that layer and hand-composed twin agree"""
+    if not (desc.get("rargs") and desc["syn"] == "deltaplus"):
+        return None, None
+    lvl = float(x[0].float().mean())
+    lat, fb = parts_or_layer_conns["lateral"], parts_or_layer_conns["feedback"]
+    B = desc["B"]
+    el = torch.full((B,) + tuple(lat.inshape), 0.5 + lvl, dtype=lat.weight.dtype)
+    ef = torch.full((B,) + tuple(fb.inshape), -0.25 - lvl, dtype=fb.weight.dtype)
+    return el, ef
+
+
 def _step_layer(desc, layer, x):
     """-> (outputs dict name->tensor, intermediates dict or None)"""
     kind, cap = desc["kind"], desc["capture"]
@@ -220,6 +238,13 @@ def _step_layer(desc, layer, x):
     for i, cn in enumerate(("feedfwd", "lateral", "feedback")):
         if cbits >> i & 1:
             kw[f"{cn}_connection_kwargs"] = {"route_marker": cn}
+    if desc.get("rargs") and desc["syn"] == "deltaplus":
+        names = _RNAMES if desc.get("names") else None
+        conns = {"lateral": layer.get_connection(names["lateral_connection"] if names else "lateral"),
+                 "feedback": layer.get_connection(names["feedback_connection"] if names else "feedback")}
+        el, ef = _extra_args(desc, conns, x)
+        kw["lateral_connection_args"], kw["feedback_connection_args"] = (el,), (ef,)
+        _ARGS_USED[0] += 1
     r = layer(*x, capture_intermediate=cap, **kw)
     if cap:
         inter = r[1]
@@ -261,10 +286,11 @@ class _Hand:
             self.fb_spikes = torch.zeros((d["B"],) + tuple(fbn.shape), dtype=torch.bool)
         tf = _tfset(d)
         cff = p.conns["feedfwd"](*x)
-        cfb = p.conns["feedback"](self.fb_spikes.roll(1, -1) if "fbi" in tf else self.fb_spikes)
+        el, ef = _extra_args(d, p.conns, x)
+        cfb = p.conns["feedback"](self.fb_spikes.roll(1, -1) if "fbi" in tf else self.fb_spikes, *(() if ef is None else (ef,)))
         drive = (cff * 2.0 if "ffo" in tf else cff) + (cfb * -0.5 if "fbo" in tf else cfb)
         sff = ffn(drive, **(_NKW if d.get("nkw") else {}))
-        clat = p.conns["lateral"](~sff if "lati" in tf else sff)
+        clat = p.conns["lateral"](~sff if "lati" in tf else sff, *(() if el is None else (el,)))
         sfb = fbn(clat * 2.0 if "lato" in tf else clat, **(_NKW if d.get("nkw") else {}))
         self.fb_spikes = sfb
         return {"feedfwd": sff, "feedback": sfb}, {"feedfwd": cff, "feedback": cfb, "lateral": clat}
@@ -337,6 +363,7 @@ def run_case(ctx, desc):
         del routed[:]
         ctx.case(f"wiring/{tag}/{desc['neuron']}/{desc['syn']}/delay{desc['delay']}/cap{int(desc['capture'])}/B{desc['B']}")
         ctx.count("wiring_steps_checked")
+        a0 = _ARGS_USED[0]
         try:
             if kind == "recurrent" and desc.get("partial_clear_at") == t:
                 if desc.get("partial_clear_kind") == "components_only":
@@ -364,6 +391,8 @@ def run_case(ctx, desc):
             if dict(routed) != want or len(routed) != len(want):
                 return ctx.violation(f"{tag.split('.tf-')[0]}.connection_kwargs_routing",
                                      f"step {t}: connections were called with {sorted(routed, key=str)}, documented routing gives {want}", rdesc)
+        if _ARGS_USED[0] > a0:
+            ctx.count("recurrent_steps_with_additional_connection_inputs")
         eouts, einter = hand.step(x)
         if set(outs) != set(eouts):
             return ctx.violation(f"{tag}.output_keys", f"outputs {sorted(outs)} expected {sorted(eouts)}", rdesc)
